@@ -640,6 +640,8 @@ def eval_case(ctx: Ctx, c: dict):
         eval_krtext(ctx, c, rep)
     elif k == "grid":
         eval_grid(ctx, c, rep)
+    elif k == "arcount":
+        eval_arcount(ctx, c, rep)
     else:
         raise ValueError(k)
 
@@ -1594,6 +1596,46 @@ def eval_grid(ctx, c, rep):
              impl, c)
 
 
+def eval_arcount(ctx, c, rep):
+    """ARCOUNT (TSIG included) at and around the octet boundaries of the 16-bit field: validate() rebuilds the header with
+    ARCOUNT - 1, a borrow across the octets when the count is a multiple of 256.  Tiny root-owner TXT records."""
+    key = mk_key(c["key"])
+    now = c["now"]
+    n = c["arcount"]
+    m = mk_message(c["body"])
+    if n > 1:
+        m.additional.append(dns.rrset.from_text(".", 0, "IN", "TXT", *['"%d"' % j for j in range(n - 1)]))
+    m.use_tsig(key, fudge=300)
+    CLOCK.t = now
+    n0 = len(SHIM.log)
+    w = m.to_wire(max_size=65535)
+    if struct.unpack("!H", w[10:12])[0] != n:
+        ctx.count("arcount.unexpected-count")
+        return
+    t = check_signed(ctx, c, rep, w, None, key, {"fudge": 300}, now, b"", None, f"to_wire with ARCOUNT {n}")
+    ctx.count(f"arcount.{n}")
+    if t is None:
+        return
+    for kr in (key, {key.name: key.secret}):
+        m2, e, log = lib_read(w, kr, now, b"", None, False)
+        corr_read(ctx, c, w, kr, now, b"", "none", False, m2, e, log)
+        if e is not None or not m2.had_tsig:
+            fail(ctx, "C14/validate/genuine-rejected/arcount",
+                 f"a genuine signed message with ARCOUNT {n} (= {n >> 8:#04x} {n & 255:#04x}, TSIG included) does not validate: {e!r}", rep)
+    # dns.tsig.validate directly, and dns.tsig.sign over the body
+    rd = rd_from({"alg": c["key"]["alg"], "time": t["time"], "fudge": t["fudge"], "mac": t["mac"].hex(), "oid": t["oid"], "error": 0, "other": ""})
+    n0 = len(SHIM.log)
+    try:
+        out = dns.tsig.validate(w, key, key.name, rd, now, b"", t["start"], None, False)
+        impl = f"ok {e_ctx(out)} in={hx(SHIM.log[-1][2]) if len(SHIM.log) > n0 else '-'}"
+    except core.Stalled:
+        raise
+    except BaseException as e:
+        impl = e_exc(e)
+        fail(ctx, "C14/validate/genuine-rejected/arcount", f"dns.tsig.validate rejects a genuine message with ARCOUNT {n}: {e!r}", rep)
+    ctx.corr(f"c14.validate {hx(w)} {e_key(key)} {e_name(key.name)} {e_rdata(rd)} {now} - {t['start']} none 0 {e_h(SHIM.log[n0:])}", impl, c)
+
+
 def eval_usetsig(ctx, c, rep):
     """key and TSIG owner chosen by Message.use_tsig for every keyring shape; then the signed message validates"""
     keys = [mk_key(k) for k in c["keys"]]
@@ -1737,6 +1779,15 @@ def gen_grid(rng, ctxk=None, multi=None):
             "ctx": ctxk or rng.choice(["none", "fresh", "leftover", "leftover+unsigned"]),
             "multi": int(rng.chance(1, 2)) if multi is None else multi, "fudge": rng.choice(FUDGES),
             "request_mac": rng.bytes(rng.choice([16, 32, 64])).hex() if rng.chance(1, 2) else ""}
+
+
+def gen_arcount(rng, n):
+    body = gen_body(rng, response=True)
+    while body.get("update"):
+        body = gen_body(rng, response=True)
+    body["edns"] = False
+    body["rrs"] = [r for r in body["rrs"] if r[0] != 3]
+    return {"kind": "arcount", "key": gen_key(rng, "example."), "body": body, "arcount": n, "now": gen_now(rng) + 70000}
 
 
 def gen_krtext(rng):
@@ -1991,6 +2042,8 @@ def generate(ctx: Ctx, scale, rng, flips=True):
         go(c, sample=False)
     for _ in range(n(60)):
         go(gen_krtext(rng))
+    for cnt in (1, 2, 255, 256, 257, 511, 512, 513):
+        go(gen_arcount(rng, cnt), sample=False)
     for ctxk in ("none", "fresh", "leftover", "leftover+unsigned"):
         for multi in (0, 1):
             for _ in range(n(6)):
